@@ -87,6 +87,11 @@ fn kind(m: &AMsg) -> &'static str {
     }
 }
 
+/// `g` is Unknown(type, data) carrying exactly the type and the data of the encoded extension `enc` (type, length, data)
+fn verbatim_unknown(g: &TlsExtension, enc: &[u8]) -> bool {
+    matches!(g, TlsExtension::Unknown(t, d) if enc.len() >= 4 && t.0 == u16::from_be_bytes([enc[0], enc[1]]) && *d == &enc[4..])
+}
+
 /// the serializer's other public entry points for the same value: `gen_tls_message`, the per-message
 /// `gen_tls_*` function and `TlsMessageHandshake::serialize`, each writing after a 2-byte prefix already
 /// in the writer (output is appended, never depends on what the writer holds)
@@ -488,7 +493,8 @@ pub fn run(ctx: &mut Ctx) {
             match r.below(3) {
                 0 => {
                     let n = gen::list_len(r, 5);
-                    AExt::Sni((0..n).map(|_| (r.u8b(), gen::opaque(r, 40))).collect())
+                    // host names of every class (DNS names, IP literals, punycode, ...) as well as opaque bytes
+                    AExt::Sni((0..n).map(|_| (if r.bool() { 0 } else { r.u8b() }, gen::name(r, 40))).collect())
                 }
                 1 => AExt::MaxFragmentLength(r.u8b()),
                 _ => AExt::SupportedGroups(gen::u16_list(r, 20)),
@@ -500,10 +506,19 @@ pub fn run(ctx: &mut Ctx) {
         ctx.eval();
         ctx.shape(&("ext", a.variant_name(), lc(want.len())));
         match gen_simple(gen_tls_extension(&v), Vec::new()) {
-            Ok(b) if b == want => match parse_tls_extension(&b) {
-                Ok((rem, g)) if rem.is_empty() && veq(&g, &v) => ctx.count("ext.roundtrip"),
-                other => ctx.violation(format!("c09:extension:{}:parse-back", a.variant_name()), json!({"bytes_hex": hex_short(&b), "parsed": format!("{:.200?}", other)})),
-            },
+            Ok(b) if b == want => {
+                // "the extension parsers": the generic one and the two hello-specific dispatchers
+                type D = for<'a> fn(&'a [u8]) -> IResult<&'a [u8], TlsExtension<'a>>;
+                let ds: [(&str, D); 3] = [("parse_tls_extension", parse_tls_extension), ("parse_tls_client_hello_extension", parse_tls_client_hello_extension), ("parse_tls_server_hello_extension", parse_tls_server_hello_extension)];
+                for (dn, d) in ds {
+                    ctx.eval();
+                    match d(&b) {
+                        // a hello-specific dispatcher that does not know the type returns it verbatim as Unknown (C05)
+                        Ok((rem, g)) if rem.is_empty() && (veq(&g, &v) || verbatim_unknown(&g, &b)) => ctx.count("ext.roundtrip"),
+                        other => ctx.violation(format!("c09:extension:{}:parse-back:{}", a.variant_name(), dn), json!({"parser": dn, "bytes_hex": hex_short(&b), "parsed": format!("{:.200?}", other)})),
+                    }
+                }
+            }
             other => ctx.violation(
                 format!("c09:extension:{}:{}", a.variant_name(), if other.is_err() { "serialize-failed" } else { "bytes-differ-from-reference" }),
                 json!({"serialized": format!("{:.200?}", other.map(|b| hex_short(&b))), "reference_hex": hex_short(&want)}),
@@ -516,10 +531,17 @@ pub fn run(ctx: &mut Ctx) {
         w.vec16("extensions", &exts_bytes(&l));
         ctx.eval();
         match gen_simple(gen_tls_extensions(&vs), Vec::new()) {
-            Ok(b) if b == w.b => match parse_tls_extensions(&b[2..]) {
-                Ok((rem, g)) if rem.is_empty() && veq(&g, &vs) => ctx.count("ext.roundtrip"),
-                other => ctx.violation("c09:extensions-list:parse-back".into(), json!({"bytes_hex": hex_short(&b), "parsed": format!("{:.200?}", other)})),
-            },
+            Ok(b) if b == w.b => {
+                type L = for<'a> fn(&'a [u8]) -> IResult<&'a [u8], Vec<TlsExtension<'a>>>;
+                let ls: [(&str, L); 3] = [("parse_tls_extensions", parse_tls_extensions), ("parse_tls_client_hello_extensions", parse_tls_client_hello_extensions), ("parse_tls_server_hello_extensions", parse_tls_server_hello_extensions)];
+                for (ln, lp) in ls {
+                    ctx.eval();
+                    match lp(&b[2..]) {
+                        Ok((rem, g)) if rem.is_empty() && g.len() == vs.len() && g.iter().zip(vs.iter()).zip(l.iter()).all(|((x, y), a)| veq(x, y) || verbatim_unknown(x, &a.to_bytes())) => ctx.count("ext.roundtrip"),
+                        other => ctx.violation(format!("c09:extensions-list:parse-back:{}", ln), json!({"parser": ln, "bytes_hex": hex_short(&b), "parsed": format!("{:.200?}", other)})),
+                    }
+                }
+            }
             other => ctx.violation("c09:extensions-list:bytes-differ-from-reference".into(), json!({"serialized": format!("{:.200?}", other.map(|b| hex_short(&b))), "reference_hex": hex_short(&w.b)})),
         }
     });
